@@ -167,7 +167,12 @@ func (cs *contractStoreImpl) WaitResult() (string, error) {
 }
 
 func (cs *contractStoreImpl) Dispose() {
-	cs.ch <- nil
+	select {
+	case cs.ch <- nil:
+	default:
+		// the result is already in the (size 1) buffer and nobody will ever
+		// read it (system SCOREs never call WaitResult): do not block
+	}
 	cs.sc.remove(cs)
 }
 
